@@ -2,7 +2,7 @@ import re
 from typing import TYPE_CHECKING, Any, Dict, List
 
 from django.template import Context, Node, NodeList, TemplateSyntaxError
-from django.template.base import Parser, VariableNode
+from django.template.base import FilterExpression, Parser, VariableNode
 
 from django_components.util.template_parser import parse_template
 
@@ -139,6 +139,25 @@ def is_dynamic_expression(value: Any) -> bool:
         return False
 
     return True
+
+
+class FilteredDynamicExpression:
+    """
+    Dynamic expression followed by filters, e.g. `"{{ first }} {{ last }}"|upper` or `"{{ val }}"|default:"x"`.
+
+    The nested template is resolved first, and the filters are applied to its result.
+    """
+
+    VAR_NAME = "djc_dynamic_expression_value"
+
+    def __init__(self, parser: Parser, expr_str: str, filters_str: str) -> None:
+        self.expr = DynamicFilterExpression(parser, expr_str)
+        self.filters = FilterExpression(self.VAR_NAME + filters_str, parser)
+
+    def resolve(self, context: Context) -> Any:
+        value = self.expr.resolve(context)
+        with context.push({self.VAR_NAME: value}):
+            return self.filters.resolve(context)
 
 
 # TODO - Move this out into a plugin?
